@@ -47,6 +47,9 @@ type Servant struct {
 	received   map[string][]*Received
 	Clock      func() int64
 	Untokened  int
+	// Forward, when set, is called by every invocation that has a context, before it produces its
+	// results: a servant that calls on to another servant with the context it was given.
+	Forward func(ctx context.Context, token string)
 }
 
 func NewServant() *Servant {
@@ -114,6 +117,9 @@ func (s *Servant) handleToken(ctx context.Context, token string, rc, rs map[stri
 	s.received[token] = append(s.received[token], rec)
 	d := s.directives[token]
 	s.mu.Unlock()
+	if s.Forward != nil && ctx != nil {
+		s.Forward(ctx, token)
+	}
 	if d == nil {
 		return nil
 	}
